@@ -348,8 +348,18 @@ macro_rules! lane_type {
                     .boxed()
             }
             pub fn strat_fold() -> BoxedStrategy<Vec<u64>> {
-                (0usize..=8)
-                    .prop_flat_map(|k| proptest::collection::vec(lattice::lat(BITS), k * N).prop_map(move |v| {
+                // lengths 0..8 mostly; a quarter of the folds have 9..40 items (an implementation that sums in blocks or pairwise
+                // is a left fold for short inputs), half of those over ordinary magnitudes within 2^+-12 where addition rounds
+                let ordinary = (any::<u64>(), 0u64..25, any::<bool>()).prop_map(|(m, e, s)| {
+                    if BITS == 32 {
+                        ((s as u64) << 31) | ((115 + e) << 23) | (m & 0x7f_ffff)
+                    } else {
+                        ((s as u64) << 63) | ((1011 + e) << 52) | (m & 0xf_ffff_ffff_ffff)
+                    }
+                });
+                let item = prop_oneof![lattice::lat(BITS), ordinary.boxed()];
+                prop_oneof![3 => (0usize..=8, Just(false)), 1 => (9usize..=40, any::<bool>())]
+                    .prop_flat_map(move |(k, ord)| proptest::collection::vec(if ord { item.clone().boxed() } else { lattice::lat(BITS) }, k * N).prop_map(move |v| {
                         let mut w = vec![k as u64];
                         w.extend(v);
                         w
